@@ -156,6 +156,12 @@ func c06(r *core.Run) {
 	c06Keys(r, recBuilders, idxBuilders)
 }
 
+// what the add paths do per index builder (filled by c06Adder, read by c06Rebuild)
+var (
+	c06AdderFields = map[*ssa.Function]string{}
+	c06AdderExtras = map[*ssa.Function]map[string]bool{}
+)
+
 func commitOf(fn *ssa.Function) ssa.CallInstruction {
 	var out ssa.CallInstruction
 	core.InstrsOf(fn, func(in ssa.Instruction) {
@@ -262,6 +268,23 @@ func c06Adder(r *core.Run, fn *ssa.Function, ops []batchOp, rec map[*ssa.Functio
 		} else {
 			base, f, ok := sigField(set.val)
 			r.Check(ok && base == B && f == "ID", "C06.IDX", fnm+"#index-value("+xn+")", set.instr.Pos(), "index value is the signature ID", "index value is "+core.Canon(set.val))
+		}
+		if c06AdderFields[X] == "" {
+			c06AdderFields[X] = strings.Join(fields, ",")
+		}
+		if c06AdderExtras[X] == nil {
+			c06AdderExtras[X] = map[string]bool{}
+		}
+		{
+			up := map[string]bool{}
+			for _, g := range rejectingGuards(fn, recSet.instr.Block()) {
+				up[g] = true
+			}
+			for _, g := range rejectingGuards(fn, set.instr.Block()) {
+				if !up[g] {
+					c06AdderExtras[X][g] = true
+				}
+			}
 		}
 		// coupled: every path record-write → commit passes the index write, except through the
 		// false edge of `<first field> != ""` (optional index)
@@ -622,6 +645,32 @@ func c06Rebuild(r *core.Run, rec map[*ssa.Function]bool, idx []*ssa.Function) {
 			for _, op := range ops {
 				if op.kind == "Set" && op.key != nil && op.key.builder == X {
 					found = true
+				}
+			}
+			for _, op := range ops {
+				if op.kind != "Set" || op.key == nil || op.key.builder != X {
+					continue
+				}
+				// sibling agreement with the add path: same fields of one decoded record, and no condition on
+				// the record's fields that the add path does not have as well
+				var fields []string
+				var base ssa.Value
+				oneBase := true
+				for _, a := range op.key.args {
+					b, f, ok := sigField(a)
+					if !ok || (base != nil && b != base) {
+						oneBase = false
+					}
+					base = b
+					fields = append(fields, f)
+				}
+				want := c06AdderFields[X]
+				r.Check(oneBase && strings.Join(fields, ",") == want, "C06.REBUILD", fnm+"#rederive-fields("+X.Name()+")", op.instr.Pos(), "re-derived entry is built from ("+want+") of the record just read", "re-derived "+X.Name()+" entry is built from ("+strings.Join(fields, ",")+"), the add path uses ("+want+")")
+				for _, g := range rejectingGuards(fn, op.instr.Block()) {
+					if !strings.Contains(g, "<detection.Signature>.") {
+						continue
+					}
+					r.Check(c06AdderExtras[X][g], "C06.REBUILD", fnm+"#rederive-condition("+X.Name()+":"+g+")", op.instr.Pos(), "the add path writes this index under the same condition", "rebuild re-creates the "+X.Name()+" entry only if "+g+", a condition the add path does not have: after a rebuild live signatures are missing from this index")
 				}
 			}
 			r.Check(found, "C06.REBUILD", fnm+"#rederive("+X.Name()+")", dr.instr.Pos(), "rebuild re-derives this index through the same builder as the add path", "rebuild does not re-create the "+X.Name()+" index")
